@@ -48,7 +48,7 @@ CLAIMED = {
          "MD5, SHA-2 and AES block primitives are trusted; key schedules, RC4 and Algorithm 2.B are implemented independently in harness/src/engine/crypt.rs and anchored on the corpus's password-protected files",
          "DESIGN.md §4 C06"),
  "C08": ("proptest-generated operation sequences (round-trip oracle under an independent structural description) and the 73-operator table with generated operands spelled by the randomised printer (oracle = my table of expansions); thorough tier ends with a coverage-guided libFuzzer campaign (target content_roundtrip)",
-         "Generated-input search: (a) sequences over all Op variants biased towards the shorthand-triggering adjacencies, serialised and parsed back; (b) every operator of Table A.1 alone and in sequences of up to 6 with well-formed operands and random conformant spelling, compared with the specification's expansion, including the tracked current point for v (after m l c v y, after h s b b* = start of the closed subpath, after re = the rectangle's origin; extra section of path operators only) and absence of operand leaks.",
+         "Generated-input search: (a) sequences over all Op variants biased towards the shorthand-triggering adjacencies, serialised and parsed back; (b) every operator of Table A.1 alone and in sequences of up to 6 with well-formed operands and random conformant spelling, compared with the specification's expansion, including the tracked current point for v (after m l c v y, after h s b b* = start of the closed subpath, after re = the rectangle's origin; extra section of path operators only) and absence of operand leaks; compatibility sections nested to any depth with non-existent operators inside, parsed with allow_invalid_ops = false.",
          "the expansion table is my reading of ISO 32000-1 Table A.1; Integer and Real operands of equal value are identified",
          "DESIGN.md §4 C08, Appendix B"),
  "C05": ("proptest-generated (data, filter chain, parameters) encoded by independent specification encoders; round-trip oracle; exhaustive enumeration of small code spaces; corruption fuzzing for no-panic",
